@@ -13,6 +13,8 @@ import RV.Base.Proto
     set w s p o c              -> ok          (Graph.set)
     rmctx w c                  -> ok          (ConjunctiveGraph.remove_context)
     addf w s p o c (s p o)*    -> ok          (quad whose graph is a Graph of another store holding the listed triples)
+    parse w (s p o c)*         -> ok          (Graph.parse: UOp.parse)
+    upd-insert / upd-delete w (s p o c)*  | upd-delwhere w s p o c | upd-clear w c   -> ok   (SPARQL Update through Graph.update: UOp)
     bind w pfx ns ov           -> ok          (ov ∈ {0,1})
     pass w                     -> ok          (open / close / destroy / query)
     commit w | rollback w      -> ok
@@ -22,7 +24,7 @@ import RV.Base.Proto
     len c                      -> __len__(context)   (`*` = no context)
     ctxs                       -> contexts(): known graph names, sorted
     tctx s p o                 -> contexts(triple), sorted
-    bound                      -> are the Graph objects handed out by contexts() / by triples() bound to the wrapper: 1 1
+    bound                      -> one bit per Source (XModel.lean): are the Graph objects that read hands out bound to the wrapper
     ns                         -> the two binding dictionaries: p=n … | n=p …  (sorted)
     log w                      -> length of wrapper w's reverseOps (diagnostic)
 -/
@@ -71,6 +73,15 @@ def DS.op (s : DS) (w : Bool) (o : XOp) : DS :=
 /-- a graph-level operation = the calls it makes, in order (both models) -/
 def DS.gop (s : DS) (w : Bool) (g : GOp) : DS :=
   g.expand.foldl (fun s o =>
+    let a := match o with
+      | .add q => s.abs.step (w, .add q)
+      | .remove p => s.abs.step (w, .remove p)
+      | _ => s.abs
+    { s.op w o with abs := a }) s
+
+/-- a parse / SPARQL Update request = the calls it makes given the content at that moment (both models) -/
+def DS.uop (s : DS) (w : Bool) (u : UOp) : DS :=
+  (u.expandAt s.m.cur).foldl (fun s o =>
     let a := match o with
       | .add q => s.abs.step (w, .add q)
       | .remove p => s.abs.step (w, .remove p)
@@ -143,6 +154,26 @@ def step (s : DS) : List String → DS × String
     match wsel? w, quad? a b c d, triples? r with
     | some w, some q, some ts => (s.gop w (.addForeign q ts), "ok")
     | _, _, _ => (s, "bad-op")
+  | "parse" :: w :: r =>
+    match wsel? w, quads? r with
+    | some w, some qs => (s.uop w (.parse qs), "ok")
+    | _, _ => (s, "bad-op")
+  | "upd-insert" :: w :: r =>
+    match wsel? w, quads? r with
+    | some w, some qs => (s.uop w (.insertData qs), "ok")
+    | _, _ => (s, "bad-op")
+  | "upd-delete" :: w :: r =>
+    match wsel? w, quads? r with
+    | some w, some qs => (s.uop w (.deleteData qs), "ok")
+    | _, _ => (s, "bad-op")
+  | ["upd-delwhere", w, a, b, c, d] =>
+    match wsel? w, pat? a b c d with
+    | some w, some p => (s.uop w (.deleteWhere p), "ok")
+    | _, _ => (s, "bad-op")
+  | ["upd-clear", w, g] =>
+    match wsel? w, g.toNat? with
+    | some w, some g => (s.uop w (.clear g), "ok")
+    | _, _ => (s, "bad-op")
   | ["bind", w, a, b, o] =>
     match wsel? w, a.toNat?, b.toNat?, wsel? o with
     | some w, some a, some b, some o => (s.op w (.bind a b o), "ok")
@@ -177,9 +208,8 @@ def step (s : DS) : List String → DS × String
     | some a, some b, some c => (s, showNats (sortNats (memContexts s.m (some (a, b, c)))))
     | _, _, _ => (s, "bad-op")
   | ["bound"] =>
-    let a := (handOutContexts s.m none).all (fun h => h.2 == Bound.wrapper)
-    let b := (handOutTriples s.m.cur (none, none, none, none)).all (fun tc => tc.2.all (fun h => h.2 == Bound.wrapper))
-    (s, (if a then "1" else "0") ++ " " ++ (if b then "1" else "0"))
+    let x : XW := ⟨s.m, []⟩
+    (s, " ".intercalate (Source.all.map (fun src => if (handOut x src).all (fun h => h.2 == Bound.wrapper) then "1" else "0")))
   | ["ns"] => (s, showPairs s.m.b.ns ++ " | " ++ showPairs s.m.b.pf)
   | ["log", w] =>
     match wsel? w with
